@@ -1002,11 +1002,11 @@ def C12(ck):
     ck.cov['transitions'] += res.generated
     seen = set()
     for e, pred in _violations_from(res.out, tr):
-        key = (pred, e['codec'], e['len'] if e['len'] < 64 else e['fam'])
+        key = (pred, e['codec'], e['len'] if e['len'] < 64 else e['fam'], e.get('args', ''))
         if key in seen:
             continue
         seen.add(key)
-        ck.violation({'kind': 'entropy', 'pred': pred, 'codec': e['codec'], 'len': e['len'], 'fam': e['fam'], 'msg': e.get('msg', '')[:120],
+        ck.violation({'kind': 'entropy', 'pred': pred, 'codec': e['codec'], 'len': e['len'], 'fam': e['fam'], 'args': e.get('args', ''), 'msg': e.get('msg', '')[:120],
                       'encBits': e['encBits'], 'decBits': e['decBits']},
                      {'cmd': 'entropy', 'case': json.loads(e['desc']), 'event': {k: v for k, v in e.items() if k != 'desc'}}, name='entropy')
     ck.cov['evaluations'] += summ['runs']
